@@ -1,0 +1,172 @@
+//go:build verif
+
+package uacp
+
+import (
+	"context"
+	"net"
+	"net/url"
+	"sync/atomic"
+	"time"
+)
+
+// SimListener is a listener of a simulated network.
+type SimListener interface {
+	Accept() (net.Conn, error)
+	Close() error
+	Addr() net.Addr
+}
+
+// SimNetwork is a simulated network. When one is installed with SetSimNet
+// all connections of this package are made through it instead of TCP.
+type SimNetwork interface {
+	Dial(ctx context.Context, hostport string) (net.Conn, error)
+	Listen(hostport string) (SimListener, error)
+}
+
+type simNetHolder struct{ n SimNetwork }
+
+var simNet atomic.Pointer[simNetHolder]
+
+// SetSimNet installs (or, with nil, removes) the simulated network.
+func SetSimNet(n SimNetwork) {
+	if n == nil {
+		simNet.Store(nil)
+		return
+	}
+	simNet.Store(&simNetHolder{n})
+}
+
+func simEnabled() bool { return simNet.Load() != nil }
+
+type simConnHook struct{ sim net.Conn }
+type simListenerHook struct{ sim SimListener }
+
+func (h simConnHook) isSim() bool     { return h.sim != nil }
+func (h simConnHook) simClose() error { return h.sim.Close() }
+
+func (h simListenerHook) isSim() bool       { return h.sim != nil }
+func (h simListenerHook) simClose() error   { return h.sim.Close() }
+func (h simListenerHook) simAddr() net.Addr { return h.sim.Addr() }
+
+func simHostPort(endpoint string) (string, error) {
+	u, err := url.Parse(endpoint)
+	if err != nil {
+		return "", err
+	}
+	return u.Host, nil
+}
+
+func simDial(ctx context.Context, d *Dialer, endpoint string) (*Conn, error) {
+	hp, err := simHostPort(endpoint)
+	if err != nil {
+		return nil, err
+	}
+	nc, err := simNet.Load().n.Dial(ctx, hp)
+	if err != nil {
+		return nil, err
+	}
+	ack := d.ClientACK
+	if ack == nil {
+		ack = DefaultClientACK
+	}
+	conn := &Conn{id: nextid(), ack: ack}
+	conn.sim = nc
+	if err := conn.Handshake(ctx, endpoint); err != nil {
+		conn.Close()
+		return nil, err
+	}
+	return conn, nil
+}
+
+func simListen(ctx context.Context, endpoint string, ack *Acknowledge) (*Listener, error) {
+	if ack == nil {
+		ack = DefaultServerACK
+	}
+	hp, err := simHostPort(endpoint)
+	if err != nil {
+		return nil, err
+	}
+	sl, err := simNet.Load().n.Listen(hp)
+	if err != nil {
+		return nil, err
+	}
+	l := &Listener{ack: ack, endpoint: endpoint}
+	l.sim = sl
+	return l, nil
+}
+
+func (l *Listener) simAccept() (*Conn, error) {
+	nc, err := l.sim.Accept()
+	if err != nil {
+		return nil, err
+	}
+	conn := &Conn{id: nextid(), ack: l.ack}
+	conn.sim = nc
+	if err := conn.srvhandshake(l.endpoint); err != nil {
+		nc.Close()
+		return nil, err
+	}
+	return conn, nil
+}
+
+// NewSimConn wraps a simulated connection without performing a handshake.
+func NewSimConn(nc net.Conn, ack *Acknowledge) *Conn {
+	if ack == nil {
+		ack = DefaultClientACK
+	}
+	conn := &Conn{id: nextid(), ack: ack}
+	conn.sim = nc
+	return conn
+}
+
+// The methods below shadow the ones promoted from the embedded *net.TCPConn.
+
+func (c *Conn) Read(b []byte) (int, error) {
+	if c.sim != nil {
+		return c.sim.Read(b)
+	}
+	return c.TCPConn.Read(b)
+}
+
+func (c *Conn) Write(b []byte) (int, error) {
+	if c.sim != nil {
+		return c.sim.Write(b)
+	}
+	return c.TCPConn.Write(b)
+}
+
+func (c *Conn) SetDeadline(t time.Time) error {
+	if c.sim != nil {
+		return c.sim.SetDeadline(t)
+	}
+	return c.TCPConn.SetDeadline(t)
+}
+
+func (c *Conn) SetReadDeadline(t time.Time) error {
+	if c.sim != nil {
+		return c.sim.SetReadDeadline(t)
+	}
+	return c.TCPConn.SetReadDeadline(t)
+}
+
+func (c *Conn) SetWriteDeadline(t time.Time) error {
+	if c.sim != nil {
+		return c.sim.SetWriteDeadline(t)
+	}
+	return c.TCPConn.SetWriteDeadline(t)
+}
+
+func (c *Conn) RemoteAddr() net.Addr {
+	if c.sim != nil {
+		return c.sim.RemoteAddr()
+	}
+	return c.TCPConn.RemoteAddr()
+}
+
+func (c *Conn) LocalAddr() net.Addr {
+	if c.sim != nil {
+		return c.sim.LocalAddr()
+	}
+	return c.TCPConn.LocalAddr()
+}
